@@ -89,7 +89,7 @@ CHECKS = {
         technique="runtime monitoring: stat-record oracle (os.lstat/os.stat/os.readlink per follow rule) over labelled test batches evaluated by the real find (in-process find_main + binary sample) on a sandbox with every file type",
         level="exploration",
         text="Per worker one sandbox with every creatable type (regular, directory, fifo, socket, char/block device), links to each, link chains, dangling links, hard-link groups 1-6, 64 (quick) / 4096 (thorough) permission values, 25 owner/group combinations; 22 starting points so that links of every kind occur at depth 0, 1 and deeper; ~2200 (quick) distinct (mode, test) pairs over -type/-xtype, -perm exact/-/ in octal, 0-octal and symbolic spellings of the same mode, -links/-inum/-uid/-gid N/+N/-N, -user/-group by name and number, -empty, -samefile, -lname/-ilname under -P/-H/-L: ~700k (entry, test, mode) evaluations, of which ~8k are ones where the link's and the target's record give different answers.",
-        note="ELOOP links, X in symbolic modes, -nouser/-nogroup and symbolic links as -samefile reference are not judged; tmpfs; runs as root (mknod/chown). Round 8: lead-option lists with several of -P/-H/-L (the last one decides).",
+        note="ELOOP links, X in symbolic modes, -nouser/-nogroup and symbolic links as -samefile reference are not judged; tmpfs; runs as root (mknod/chown). Round 8: lead-option lists with several of -P/-H/-L (the last one decides). Round 9: -uid/-gid operands of 2^32 + id.",
         ref="DESIGN.md section 4 C13"),
     "C14": dict(
         technique="runtime monitoring: oracle-free invariants (the three forms -N/N/+N partition the files; +N/-N monotone in N) plus integer-arithmetic oracle on os.lstat records, over labelled clause triples evaluated in-process with an injected clock",
@@ -119,13 +119,13 @@ CHECKS = {
         technique="runtime monitoring: scripted recorder outcomes, exit status and number of invocations started vs the documented function; bounded-exhaustive over outcome classes",
         level="exploration",
         text="Exhaustive over the four outcome classes (0, 1..125, 255, signal) for every sequence length <= 5 (quick, 1364 sequences) / 7 (thorough, 21844), random sequences to length 12, missing / non-executable command, usage and input errors.",
-        note="Child statuses 126..254 not judged. Round 8: -x with -L/-n and a group whose later argument does not fit -s.",
+        note="Child statuses 126..254 not judged. Round 8: -x with -L/-n and a group whose later argument does not fit -s. Round 9: -I followed by -L 1 with an unterminated quote.",
         ref="DESIGN.md section 4 C19"),
     "C20": dict(
         technique="runtime monitoring: recorder argv per invocation vs textual substitution model; option-order matrix for -I/-n/-L",
         level="exploration",
         text="Random line sets and initial-argument templates with 0-3 occurrences of R, six replacement strings in five spellings, empty input, -I with -n 1, and all orderings of all subsets of {-I,-n,-L} (mode of the last option judged with C04's batching model).",
-        note="Lines free of quotes, backslashes and leading blanks (statement's restriction); trailing blanks and bytes that are not valid UTF-8 are judged. Round 7: -I runs under a -s that is 1-8 bytes above what the largest command line needs. Round 8: -x together with a just-fitting -s.",
+        note="Lines free of quotes, backslashes and leading blanks (statement's restriction); trailing blanks and bytes that are not valid UTF-8 are judged. Round 7: -I runs under a -s that is 1-8 bytes above what the largest command line needs. Round 8: -x together with a just-fitting -s. Round 9: -I together with -0/--null (one run per NUL-terminated item).",
         ref="DESIGN.md section 4 C20"),
 }
 
